@@ -374,4 +374,50 @@ theorem infer_renumbered {jt : JetTypes} {σ σ' : Nat → Nat} {q P : Plan} {ma
   rw [tgtOf_pull σ' _ arQ hσj, hinv] at b2
   exact ⟨Le.antisymm a1 b1, Le.antisymm a2 b2⟩
 
+
+/-! ### a decidable check of `Renumbers` (non-vacuity examples; the conditions are finite) -/
+
+deriving instance DecidableEq for Prog.Node
+
+def visibleAt (q : Plan) (c : Nat) : Bool :=
+  match q[c]? with
+  | some nd => !isHidden nd
+  | none => false
+
+def renumbersB (σ σ' : Nat → Nat) (q P : Plan) (mask : Nat → Bool) : Bool :=
+  decide (0 < q.size) && decide (0 < P.size) &&
+  (List.range q.size).all (fun j =>
+    match q[j]? with
+    | some nd =>
+      isHidden nd ||
+        (mask (σ j) && decide (P[σ j]? = some (mapCh σ nd)) && decide (σ' (σ j) = j) &&
+          nd.children.all (visibleAt q))
+    | none => true) &&
+  (List.range P.size).all (fun i => !mask i || (visibleAt q (σ' i) && decide (σ (σ' i) = i))) &&
+  decide (σ (q.size - 1) = P.size - 1) && visibleAt q (q.size - 1)
+
+theorem visibleAt_spec {q : Plan} {c : Nat} (h : visibleAt q c = true) :
+    ∃ nd, q[c]? = some nd ∧ isHidden nd = false := by
+  unfold visibleAt at h
+  cases hq : q[c]? with
+  | none => rw [hq] at h; cases h
+  | some nd => rw [hq] at h; exact ⟨nd, rfl, by simpa using h⟩
+
+theorem renumbersB_sound {σ σ' : Nat → Nat} {q P : Plan} {mask : Nat → Bool}
+    (h : renumbersB σ σ' q P mask = true) : Renumbers σ σ' q P mask := by
+  simp only [renumbersB, Bool.and_eq_true, decide_eq_true_eq, List.all_eq_true, List.mem_range] at h
+  obtain ⟨⟨⟨⟨⟨hq, hp⟩, hnode⟩, hinv⟩, hroot⟩, hrv⟩ := h
+  refine ⟨hq, hp, ?_, ?_, ⟨hroot, visibleAt_spec hrv⟩⟩
+  · intro j nd hnd hh
+    have := hnode j (lt_of_get? hnd)
+    rw [hnd] at this
+    simp only [hh, Bool.false_or, Bool.and_eq_true, decide_eq_true_eq, List.all_eq_true] at this
+    obtain ⟨⟨⟨h1, h2⟩, h3⟩, h4⟩ := this
+    exact ⟨h1, h2, h3, fun c hc => visibleAt_spec (h4 c hc)⟩
+  · intro i hi hm
+    have := hinv i hi
+    simp only [hm, Bool.not_true, Bool.false_or, Bool.and_eq_true, decide_eq_true_eq] at this
+    obtain ⟨nd, h1, h2⟩ := visibleAt_spec this.1
+    exact ⟨nd, h1, h2, this.2⟩
+
 end Routes
